@@ -56,19 +56,29 @@ IC = "ide::ty::infer::InferCtx::"
 
 def arms(F):
     """BinaryOpKind variant -> (types unified via unify_var_ty, operands unified?, result)"""
-    fn = F.fn("ide::ty::infer::InferCtx::infer_expr_inner")
-    d = FL.Defs(fn)
+    fn0 = F.fn("ide::ty::infer::InferCtx::infer_expr_inner")
     dm = F.discr_map(BK)
     sw = None
-    for b in sorted(fn.reachable()):
-        t = fn.term(b)
-        if t["k"] == "switch":
-            l = op_local(t["op"])
-            o = d.origin(l) if l is not None else {}
-            if o.get("k") == "rv" and o["rv"]["k"] == "discr" and o["rv"]["of"] == BK:
-                sw = (b, t)
+    fn = fn0
+    # the match on the operator kind: in infer_expr_inner or in a method of InferCtx it hands the Binary arm to
+    for p_ in F.with_helpers(fn0.path, depth=1):
+        if not p_.startswith(IC) or "{closure" in p_:
+            continue
+        g = F.fns[p_]
+        dg = FL.Defs(g)
+        for b in sorted(g.reachable()):
+            t = g.term(b)
+            if t["k"] == "switch":
+                l = op_local(t["op"])
+                o = dg.origin(l) if l is not None else {}
+                if o.get("k") == "rv" and o["rv"]["k"] == "discr" and o["rv"]["of"] == BK:
+                    sw = (b, t)
+                    fn = g
+        if sw is not None:
+            break
+    d = FL.Defs(fn)
     if sw is None:
-        return None, fn
+        return None, fn0
     b0, t = sw
     tgts = {dm[v]: tgt for v, tgt in t["targets"]}
     listed = set(tgts)
